@@ -85,6 +85,15 @@ def solid2DStep : Op := fun j => do
   let T' := S2D.solidStep c f.inplace Tsh (fun k => qeA.getD k Num.zero) T.toArray w.toArray maskB.toArray
   return Json.mkObj [("T", encNums T'.toList), ("w", encNums (S2D.iceFrac c T').toList)]
 
+/-- `SimpPlan.eval (mkPlan x) y` next to `simpson y x` (they must be identical) -/
+def simpsonPlan : Op := fun j => do
+  let y : List α ← nums j "y"
+  let x : List α ← nums j "x"
+  let ya := y.toArray
+  let pl := S2D.mkPlan x.toArray
+  return Json.mkObj [("plan", Wire.enc (pl.eval fun k => ya.getD k Num.zero)),
+                     ("ref", Wire.enc (simpson y x))]
+
 end
 
 section
@@ -144,6 +153,7 @@ end
 def snowing2DOps : List (String × Op) := [
   ("cool2DStep", byNum fun α => cool2DStep α),
   ("solid2DStep", byNum fun α => solid2DStep α),
+  ("simpsonPlan", byNum fun α => simpsonPlan α),
   ("snowing2D", fun j => snowing2D Float j),
   ("evap2D", fun j => evap2D Float j)]
 
